@@ -31,6 +31,10 @@ def cases(tier, seed):
     def chunks(d, n, ys, qs, ch=3):
         for i in range(0, len(ys), ch):
             yield {"d": d, "n": n, "ys": [list(v) for v in ys[i:i + ch]], "qs": list(qs)}
+    for rows, scale in ((20000, 1000.0), (6007, 1000.0), (50021, 30.0)):
+        for dt in ("float32", "float64"):
+            for fi in (False, True):
+                yield {"rows": rows, "scale": scale, "dtype": dt, "fit_intercept": fi}
     if tier == "quick":
         yield from chunks(1, 4, list(itertools.product((0, 1, 3), repeat=4)), QS)
         yield from chunks(1, 5, list(itertools.product((0, 1, 3), repeat=5))[seed % 2::2], (0.25, 0.5), 2)
@@ -85,11 +89,62 @@ def lp_optimum(Xm, y, q, w, pos_idx):
     return best
 
 
+def _tall(case):
+    """Tall designs (thousands of rows) whose columns live on different scales (a ratio in [0,1) next to a length in [0,1000)), as
+    float64 and float32, with and without intercept: the fitted line's pinball loss is within 20% of an independent IRLS (plain NumPy,
+    float64, columns rescaled) and the score is its negation-free mean; a coarser line never scores better."""
+    import numpy
+    import warnings
+    from mlinsights.mlmodel import QuantileLinearRegression
+    warnings.simplefilter("ignore")
+    n, dt, fi = case["rows"], case["dtype"], case["fit_intercept"]
+    viol = []
+    i = numpy.arange(n, dtype=numpy.float64)
+    x1 = (i * 0.6180339887498949) % 1.0
+    x2 = ((i * 0.7548776662466927) % 1.0) * case["scale"]
+    noise = (((i * 0.5698402909980532) % 1.0) - 0.5) * 1.2 + 0.3 * numpy.sin(i)
+    y = 2.0 * x1 + (3.0 / case["scale"]) * x2 + noise + (0.0 if not fi else 1.5)
+    X64 = numpy.column_stack([x1, x2])
+    X = X64.astype(dt)
+    cnt = 0
+    for q in (0.1, 0.5, 0.9):
+        cnt += 1
+        cond = "tall design,columns on different scales,dtype=%s,fit_intercept=%s" % (dt, fi)
+        try:
+            m = QuantileLinearRegression(quantile=q, fit_intercept=fi, max_iter=200, delta=1e-4).fit(X, y)    # iteration cap far above the default: the fixed point
+            pred = numpy.asarray(m.predict(X), dtype=numpy.float64)
+            sc = float(m.score(X, y))
+        except Exception as e:
+            viol.append({"sig": "QuantileLinearRegression|raises %s|%s" % (type(e).__name__, cond), "msg": str(e)[:200]})
+            continue
+        loss = float(pinball(y, pred, q).mean())
+        # independent reference: IRLS in float64 on rescaled columns
+        A = numpy.column_stack([x1, x2 / case["scale"]] + ([numpy.ones(n)] if fi else []))
+        beta = numpy.linalg.lstsq(A, y, rcond=None)[0]
+        for _ in range(80):
+            r = y - A @ beta
+            wt = numpy.where(r > 0, q, 1 - q) / numpy.maximum(numpy.abs(r), 1e-6)
+            sw = numpy.sqrt(wt)
+            beta = numpy.linalg.lstsq(A * sw[:, None], y * sw, rcond=None)[0]
+        ref = float(pinball(y, A @ beta, q).mean())
+        if loss > 1.2 * ref + 1e-9:
+            viol.append({"sig": "QuantileLinearRegression|pinball loss far above that of another line|" + cond,
+                         "msg": "q=%s rows=%d scale=%s: loss %r, an IRLS line through the same rows has %r; coef_=%r intercept_=%r" % (
+                             q, n, case["scale"], loss, ref, numpy.asarray(m.coef_).tolist(), m.intercept_)})
+        if not fi and abs(float(numpy.ravel(m.intercept_)[0] if numpy.ndim(m.intercept_) else m.intercept_)) > 0:
+            viol.append({"sig": "QuantileLinearRegression|intercept_ != 0 without intercept|" + cond, "msg": repr(m.intercept_)})
+        if abs(sc - loss) > 1e-6 * max(1.0, loss) and abs(sc - 2 * loss) > 1e-6 * max(1.0, loss) and abs(sc + loss) > 1e-6 * max(1.0, loss):
+            viol.append({"sig": "QuantileLinearRegression|score is not the mean pinball loss|" + cond, "msg": "score %r loss %r q=%s" % (sc, loss, q)})
+    return {"viol": viol, "nontrivial": True, "states": cnt, "transitions": cnt * 3, "outcome": ("tall", dt, fi)}
+
+
 def run_case(case):
     import numpy
     import warnings
     from mlinsights.mlmodel import QuantileLinearRegression
 
+    if "rows" in case:
+        return _tall(case)
     warnings.simplefilter("ignore")
     d, n = case["d"], case["n"]
     X = _design(d, n)
